@@ -1,9 +1,10 @@
 #!/bin/bash
 # Apalache: IndInv is an inductive invariant of the key discipline for arbitrary NPeriods, NVars, NAgents,
-# and it implies NoKeyReuse.
+# and it implies NoKeyReuse.  (Own scratch directory per invocation: concurrent runs must not share or remove it.)
 cd "$(dirname "$0")" || exit 2
 set -e
-timeout 600 apalache-mc check --cinit=ConstInit --init=Init --inv=IndInv --length=0 --out-dir=/tmp/apa-keys KeysInd.tla | grep -E "EXITCODE|error|Error" 
-timeout 900 apalache-mc check --cinit=ConstInit --init=IndInit --inv=IndInv --length=1 --out-dir=/tmp/apa-keys KeysInd.tla | grep -E "EXITCODE|error|Error"
-timeout 900 apalache-mc check --cinit=ConstInit --init=IndInit --inv=NoKeyReuse --length=0 --out-dir=/tmp/apa-keys KeysInd.tla | grep -E "EXITCODE|error|Error"
-rm -rf /tmp/apa-keys
+out=$(mktemp -d /tmp/apa-keys.XXXXXX)
+trap 'rm -rf "$out"' EXIT
+timeout 600 apalache-mc check --cinit=ConstInit --init=Init --inv=IndInv --length=0 --out-dir="$out" KeysInd.tla | grep -E "EXITCODE|error|Error"
+timeout 900 apalache-mc check --cinit=ConstInit --init=IndInit --inv=IndInv --length=1 --out-dir="$out" KeysInd.tla | grep -E "EXITCODE|error|Error"
+timeout 900 apalache-mc check --cinit=ConstInit --init=IndInit --inv=NoKeyReuse --length=0 --out-dir="$out" KeysInd.tla | grep -E "EXITCODE|error|Error"
